@@ -7,7 +7,9 @@ package gx
 import (
 	"encoding/json"
 	"fmt"
+	"os"
 	"sort"
+	"strconv"
 	"strings"
 
 	"verif/mc/explore"
@@ -31,11 +33,47 @@ type spaceSpec struct {
 	sp     *gram.Space
 	maxLen int
 	alpha  []byte
+	// mutualOnly keeps only grammars in which N0 and N1 lie on a common same-position
+	// cycle (mutual / hidden left recursion through both nonterminals): the part of the
+	// two-nonterminal space in which the curtailment bookkeeping of two parsers interacts.
+	mutualOnly bool
 }
 
 func (s spaceSpec) describe() string {
-	return fmt.Sprintf("%s: alphabet=%s nonterminals=%d shared=%d total size %d..%d, inputs over %q up to length %d",
+	d := fmt.Sprintf("%s: alphabet=%s nonterminals=%d shared=%d total size %d..%d, inputs over %q up to length %d",
 		s.sp.Name, s.sp.Alpha.Name, s.sp.NNT, s.sp.NSh, s.sp.Min, s.sp.Max, string(s.alpha), s.maxLen)
+	if s.mutualOnly {
+		d += ", only grammars whose two nonterminals lie on a common same-position cycle"
+	}
+	return d
+}
+
+// specsFromEnv lets a targeted deep run override the spaces:
+// VERIF_SPACES="full,2,7,8,3;core,1,8,8,4" = alphabet,nonterminals,min,max,input length.
+func specsFromEnv(def []spaceSpec) []spaceSpec {
+	v := os.Getenv("VERIF_SPACES")
+	if v == "" {
+		return def
+	}
+	var out []spaceSpec
+	for _, part := range strings.Split(v, ";") {
+		f := strings.Split(part, ",")
+		if len(f) != 5 {
+			continue
+		}
+		al := gram.Full
+		letters := ab
+		if f[0] == "core" {
+			al = gram.Core
+		}
+		if f[0] == "core1" {
+			al = gram.Core1
+			letters = []byte{'a'}
+		}
+		atoi := func(s string) int { n, _ := strconv.Atoi(s); return n }
+		out = append(out, spaceSpec{sp: &gram.Space{Name: "env-" + part, Alpha: al, NNT: atoi(f[1]), Min: atoi(f[2]), Max: atoi(f[3])}, maxLen: atoi(f[4]), alpha: letters, mutualOnly: os.Getenv("VERIF_MUTUAL") != ""})
+	}
+	return out
 }
 
 func boundsOf(specs []spaceSpec, seeds []Case) map[string]any {
@@ -131,6 +169,13 @@ func eachGrammar(env *explore.Env, res *explore.Result, specs []spaceSpec, seeds
 				// combinator is equivariant, so the mirrored grammar is covered.
 				res.Add("grammars_skipped_by_symmetry", 1)
 				return
+			}
+			if s.mutualOnly {
+				an := gram.Analyze(g)
+				if len(g.NTs) < 2 || an.SCC[g.NTs[0].ID] != an.SCC[g.NTs[1].ID] {
+					res.Add("grammars_outside_mutual_recursion_space", 1)
+					return
+				}
 			}
 			res.Add("grammars", 1)
 			fn(g, inputs, false)
